@@ -1,4 +1,4 @@
-import SctpVerif.Proofs.PendQMsg
+import SctpVerif.Proofs.PendQRR
 /-!
 # C17 — scheduler half: fragment order, contiguity without interleaving, round robin, WFQ, accounting
 
@@ -69,6 +69,43 @@ theorem C17_contiguous (f : Factory) (ops : List Op) (hops : ∀ o ∈ ops, o.ba
   simp only [List.nil_append] at hc
   exact adj_of_filter x.unordered _ hkeep (hc.good x y hadj hx) hx rfl
 
+/-- only push / peek / pop (no `setInterleaving`, so the installed scheduler stays) -/
+def Basic (ops : List Op) : Prop := ∀ o ∈ ops, o.basic = true
+
+/-- **Round robin serves backlogged streams one chunk each per round.** Start from
+`newPendingQueue(rr)`, `setInterleaving(true)`, then any operation list `pre` (any reachable state).
+Suppose the next pop serves stream `s` (chunk `c1`), then an arbitrary operation list `mid` runs
+without serving `s`, then the next pop serves `s` again (chunk `c2`). If `s` and another stream `t`
+have queued data in every state from just after the first service to just before the second, then
+`t` was served exactly once in between. -/
+theorem C17_rr_round (pre mid : List Op) (hpre : Basic pre) (hmid : Basic mid) (s t : Nat) (hst : t ≠ s)
+    (c1 c2 : Chunk) :
+    let q1 := ((rrFresh : PQ α).run pre).1
+    let e1 := q1.step .pop
+    let r2 := e1.1.run mid
+    let e2 := r2.1.step .pop
+    e1.2 = .popped (some c1) .ok → c1.sid = s → e2.2 = .popped (some c2) .ok → c2.sid = s →
+    (∀ c ∈ popsOf r2.2, c.sid ≠ s) →
+    PQ.AllStates (fun q => q.backlogged s ∧ q.backlogged t) e1.1 mid →
+    ((popsOf r2.2).filter (·.sid == t)).length = 1 := by
+  intro q1 e1 r2 e2 h1 hc1 h2 hc2 hnos hall
+  obtain ⟨r1, hq1, hwf1⟩ := rr_reach (α := α) pre hpre
+  exact rr_round hq1 hwf1 mid hmid s t hst c1 c2 h1 hc1 h2 hc2 hnos hall
+
+/-- **Round robin starves nobody.** In any reachable round-robin state, let chunk `c` sit at depth
+`d` of its stream's queue (`d` chunks ahead of it) and let `N` bound the stream identifiers in use
+(all pushes, before and after, have `sid < N`, so at most `N` streams take turns). Then whatever is
+pushed or peeked meanwhile, `c` has been popped once `(d + 1) · N` pops have been done. -/
+theorem C17_rr_no_starvation (N : Nat) (pre ops : List Op) (hpre : Basic pre) (hops : Basic ops)
+    (c : Chunk) (s d : Nat) (l1 l2 : List Chunk) :
+    let q1 := ((rrFresh : PQ α).run pre).1
+    let r := q1.run ops
+    (∀ c' ∈ pushesOf ((rrFresh : PQ α).run pre).2, c'.sid < N) → (∀ c' ∈ pushesOf r.2, c'.sid < N) →
+    q1.policy.streamQ s = l1 ++ c :: l2 → l1.length = d →
+    (d + 1) * N ≤ (popsOf r.2).length → c ∈ popsOf r.2 := by
+  intro q1 r hNpre hNops hq hd hmany
+  exact rr_no_starvation N pre ops hpre hops hNpre hNops c s d l1 l2 hq hd hmany
+
 -- the theorems above are not vacuous: a run that fragments, switches mode and interleaves
 private def exOps : List Op :=
   [.push ⟨0, 1, false, true, false, 5⟩, .push ⟨1, 1, false, false, true, 3⟩, .pop, .setil true, .pop, .setil true,
@@ -86,6 +123,18 @@ private def exMsgOps : List Op :=
    .push ⟨2, 2, true, true, false, 4⟩, .push ⟨3, 2, true, false, true, 4⟩, .pop, .pop, .pop]
 example : popsOf ((PQ.new .none : PQ Rat).run exMsgOps).2 =
     [⟨0, 1, false, true, false, 5⟩, ⟨1, 1, false, false, true, 3⟩, ⟨2, 2, true, true, false, 4⟩, ⟨3, 2, true, false, true, 4⟩] := by
+  decide
+
+-- `C17_rr_round` / `C17_rr_no_starvation` are not vacuous: streams 1, 2, 3 backlogged; between two
+-- services of stream 1 streams 2 and 3 are served once each; chunk 5 (depth 1 of stream 3, N = 4) is
+-- popped within (1+1)·4 pops
+private def exRRPre : List Op :=
+  [.push ⟨0, 1, false, true, true, 1⟩, .push ⟨1, 1, false, true, true, 1⟩, .push ⟨2, 1, false, true, true, 1⟩,
+   .push ⟨3, 2, false, true, true, 1⟩, .push ⟨4, 2, false, true, true, 1⟩,
+   .push ⟨6, 3, false, true, true, 1⟩, .push ⟨5, 3, false, true, true, 1⟩, .push ⟨7, 3, false, true, true, 1⟩]
+example : popsOf ((((rrFresh : PQ Rat).run exRRPre).1.step .pop).1.run [.pop, .peek, .pop, .pop]).2 =
+      [⟨3, 2, false, true, true, 1⟩, ⟨6, 3, false, true, true, 1⟩, ⟨1, 1, false, true, true, 1⟩] ∧
+    PQ.AllStates (fun q => q.backlogged 1 ∧ q.backlogged 2) (((rrFresh : PQ Rat).run exRRPre).1.step .pop).1 [.pop, .peek, .pop] := by
   decide
 
 end C17
